@@ -15,6 +15,9 @@ import (
 type V2 struct {
 	T    *codec.Table
 	void jd.JsonNode
+	// NegZeroB: the second document of a pair (b) spells its numeric zeros -0 - the same number, so the
+	// specification sees no difference between the session and the plain one
+	NegZeroB bool
 }
 
 func NewV2(t *codec.Table) *V2 {
@@ -63,6 +66,18 @@ func (v *V2) Inject(n codec.Node, yaml bool) (jd.JsonNode, error) {
 		return v.void, nil
 	}
 	txt := v.T.Text(n)
+	if yaml {
+		return jd.ReadYamlString(txt)
+	}
+	return jd.ReadJsonString(txt)
+}
+
+// InjectB is Inject for the b side of a pair.
+func (v *V2) InjectB(n codec.Node, yaml bool) (jd.JsonNode, error) {
+	if !v.NegZeroB || n.IsVoid() {
+		return v.Inject(n, yaml)
+	}
+	txt := v.T.TextNZ(n)
 	if yaml {
 		return jd.ReadYamlString(txt)
 	}
@@ -262,7 +277,7 @@ func (v *V2) Diff(a, b codec.Node, o codec.Opts, yaml bool) (jd.Diff, Res) {
 		if err != nil {
 			return Res{St: "err", Msg: "inject a: " + err.Error()}
 		}
-		jb, err := v.Inject(b, yaml)
+		jb, err := v.InjectB(b, yaml)
 		if err != nil {
 			return Res{St: "err", Msg: "inject b: " + err.Error()}
 		}
@@ -284,7 +299,7 @@ func (v *V2) DiffPatchSame(a, b codec.Node, o codec.Opts, yaml bool) (Res, Res) 
 		if err != nil {
 			return Res{St: "err", Msg: "inject a: " + err.Error()}
 		}
-		jb, err := v.Inject(b, yaml)
+		jb, err := v.InjectB(b, yaml)
 		if err != nil {
 			return Res{St: "err", Msg: "inject b: " + err.Error()}
 		}
@@ -326,7 +341,7 @@ func (v *V2) Patch(c codec.Node, d jd.Diff, yaml bool) (jd.JsonNode, Res) {
 
 func (v *V2) EqualsJ(x jd.JsonNode, b codec.Node, o codec.Opts, yaml bool) Res {
 	return Guard(func() Res {
-		jb, err := v.Inject(b, yaml)
+		jb, err := v.InjectB(b, yaml)
 		if err != nil {
 			return Res{St: "err", Msg: "inject: " + err.Error()}
 		}
@@ -341,7 +356,7 @@ func (v *V2) Equals(a, b codec.Node, o codec.Opts, yaml bool) Res {
 		if err != nil {
 			return Res{St: "err", Msg: "inject: " + err.Error()}
 		}
-		jb, err := v.Inject(b, yaml)
+		jb, err := v.InjectB(b, yaml)
 		if err != nil {
 			return Res{St: "err", Msg: "inject: " + err.Error()}
 		}
